@@ -248,7 +248,7 @@ Proof. exact fp_stoch_is_linear_inside. Qed.
 Print Assumptions C15_fp_stoch_is_linear_inside.
 
 (** the pinned tree's statement y' = y - (y e1 + xi) relaxes the mean towards grid row 0: the demanded
-    law fails by e1 * yc (the finding; fixed by commit 82d192b) *)
+    law fails by e1 * yc (the finding; fixed by commit f5243ba) *)
 Theorem C15_pinned_stochastic_mean_refuted :
   forall (K : Fld) (Om : Type) (E : (Om -> K) -> K),
     (forall X Y, (forall w, X w = Y w) -> E X = E Y) ->
